@@ -197,9 +197,10 @@ def sendQualityReport (e : Endpoint) (now : Nat) : Endpoint :=
   e.queueMessage now (.qualityReport adv (now / 1000))
 
 /-- The two silence timers of `poll` (Running state): NetworkInterrupted after the notify delay,
-Disconnected after the disconnect timeout, each at most once per silence. -/
+Disconnected after the disconnect timeout, each at most once per silence; nothing is reported once
+the Disconnected event is out (it may have been queued by `send_input`'s cap). -/
 def checkTimeouts (e : Endpoint) (now : Nat) : Endpoint :=
-  let e := if !e.disconnectNotifySent && e.lastRecvTime + e.disconnectNotifyStart < now then
+  let e := if !e.disconnectNotifySent && !e.disconnectEventSent && e.lastRecvTime + e.disconnectNotifyStart < now then
              { e with eventQueue := e.eventQueue ++
                         [.networkInterrupted ((e.disconnectTimeout - e.disconnectNotifyStart) / 1000)],
                       disconnectNotifySent := true }
@@ -363,7 +364,7 @@ def onChecksumReport (e : Endpoint) (checksum : Nat) (frame : Frame) : M Endpoin
 connection is reported as resumed. -/
 def noteReceived (e : Endpoint) (now : Nat) : Endpoint :=
   let e := { e with lastRecvTime := now }
-  if e.disconnectNotifySent && e.state == .running then
+  if e.disconnectNotifySent && !e.disconnectEventSent && e.state == .running then
     { e with disconnectNotifySent := false, eventQueue := e.eventQueue ++ [.networkResumed] }
   else e
 
